@@ -33,7 +33,9 @@ type c08case struct {
 
 var c08bases = []string{"os", "mem", "mount", "mount-os"}
 
-var c08targets = []string{"f", "d", "e", "new", "nope/new", "f/x", ".", "d/x", "d/sub/deeper", "ln", "../f", "d/../f", "", "lnd/sub/deeper", "lnd/x", "sp", "spd"}
+var c08targets = []string{"f", "d", "e", "new", "nope/new", "f/x", ".", "d/x", "d/sub/deeper", "ln", "../f", "d/../f", "", "lnd/sub/deeper", "lnd/x", "sp", "spd",
+	// a backslash or a colon inside an element is an ordinary name byte for every fallback, too
+	`w\x/y`, `d/c:x/z`}
 
 // c08mkdirPerms: permission arguments for Mkdir/MkdirAll (variant 0 first), incl. ones without owner write/execute
 var c08mkdirPerms = []uint32{0o750, 0o555, 0o500, 0, 0o777}
@@ -158,7 +160,7 @@ func c08build() {
 									c08list = append(c08list, c08case{Base: base, Helper: h, Off: off, FileOff: fo, ArgIndex: ai, Variant: v})
 								}
 							}
-							if (h == "Mkdir" || h == "MkdirAll") && (c08targets[ai] == "new" || c08targets[ai] == "d/sub/deeper" || c08targets[ai] == "nope/new" || c08targets[ai] == "lnd/sub/deeper") {
+							if (h == "Mkdir" || h == "MkdirAll") && (c08targets[ai] == "new" || c08targets[ai] == "d/sub/deeper" || c08targets[ai] == "nope/new" || c08targets[ai] == "lnd/sub/deeper" || strings.ContainsAny(c08targets[ai], `\:`)) {
 								for v := 1; v < len(c08mkdirPerms); v++ {
 									c08list = append(c08list, c08case{Base: base, Helper: h, Off: off, FileOff: fo, ArgIndex: ai, Variant: v})
 								}
